@@ -41,7 +41,7 @@ def run(ctx):
     cv = P.val_call(f, body, gb)
     gt_i = common.param_index_of_type(g, r"Option<cosmwasm_std::\S*Decimal>$")
     gd_i = common.param_index_of_type(g, r"\[cosmwasm_std::\S*Uint128; 2\]$")
-    gp_i = common.param_index_of_type(g, r"\[haloswap::asset::Asset; 2\]$")
+    gp_i = common.param_index_of_type(g, r"\[%s; 2\]$" % ctx.N.rx("Asset"))
     if None in (tol_i, gt_i, gd_i, gp_i):
         r1.fail("C15.R1:anchor", g.path, g.span, "anchor-missing: guard parameters (Option<Decimal>, [Uint128;2], [Asset;2])")
         return
@@ -52,7 +52,7 @@ def run(ctx):
     # deposits = the same array the share calculator and TransferFrom use; pools = query_pools mutated by the adjust loop
     dr = "|".join(sorted(ctx.roots(cv[4][gd_i])))
     pr_ = set(ctx.roots(cv[4][gp_i]))
-    qp = [r for r in pr_ if r.startswith("C:haloswap::asset::PairInfoRaw::query_pools@")]
+    qp = [r for r in pr_ if r.startswith("C:%s@" % ctx.N.cpath("query_pools"))]
     if not dr.startswith("A:array[") or len(qp) != 1:
         r1.fail("C15.R1:args", f.path, common.span_of_block_term(f, gb), "guard receives deposits ⊢ %s, pools ⊢ %s" % (dr[:120], sorted(pr_)))
     else:
